@@ -114,8 +114,10 @@ TCompPick == /\ Is("CompPick") /\ comp = NoComp /\ phase = "run"
              /\ (CheckSS => Ev.ss = MinSnapTV)                                  \* C06: the oldest live snapshot bounds what may be dropped
              /\ comp' = [level |-> Ev.level, in0 |-> SetOf(Ev.in0), in1 |-> SetOf(Ev.in1), outs |-> {}]
              /\ KeepLsm /\ UNCHANGED <<pend, built, sizes, flushing, flushLevel, snapIds, pinIds, curLog, immLog, manifest, phase, unflushed, reusedLog, opened>>
+\* the number of an output is protected from the moment the file is opened (pending_outputs), not only once it is finished
 TCompOutOpen == /\ Is("CompOutOpen") /\ comp # NoComp
-                /\ KeepLsm /\ UnchangedTNoL
+                /\ comp' = [x \in DOMAIN comp \cup {"open"} |-> IF x = "open" THEN Ev.num ELSE comp[x]]
+                /\ KeepLsm /\ UNCHANGED <<pend, built, sizes, flushing, flushLevel, snapIds, pinIds, curLog, immLog, manifest, phase, unflushed, reusedLog, opened>>
 TCompOutDone == /\ Is("CompOutDone") /\ comp # NoComp
                 /\ IF Ev.rc = 0 /\ Ev.entries > 0
                    THEN /\ built' = (Ev.num :> [n |-> Ev.num, e |-> EntsOfSeq(Ev.ents)]) @@ built
@@ -181,7 +183,7 @@ TVersionInstall ==
   /\ UNCHANGED <<pend, sizes, flushLevel, snapIds, pinIds, curLog, immLog>>
 
 \* ---- obsolete-file removal: nothing needed may be deleted (C13) ----
-PendingNums == DOMAIN built \cup (IF flushing # 0 THEN {flushing} ELSE {})
+PendingNums == DOMAIN built \cup (IF flushing # 0 THEN {flushing} ELSE {}) \cup (IF comp # NoComp /\ "open" \in DOMAIN comp THEN {comp.open} ELSE {})
 NeededTV == FileNums \cup UNION PinSets \cup PendingNums
 TObsolete == /\ Is("Obsolete")
              /\ LET dt == SetOf(Ev.deltables)  dl == SetOf(Ev.dellogs)  dm == SetOf(Ev.delmanifests) IN
